@@ -166,6 +166,11 @@ pub enum ScriptOp {
     Fill(usize, usize),
     /// one commit deleting every committed key
     DeleteAll,
+    /// one commit inserting n fresh keys that all start with the two bytes 0xC3 0x5A (one sub-trie two page
+    /// levels below the root page) with small values
+    FillCluster(usize),
+    /// one commit deleting n committed keys of that cluster
+    DeleteCluster(usize),
 }
 
 /// directed histories selectable with `--focus script-…`
@@ -192,6 +197,10 @@ pub fn script_for(focus: &str) -> Option<Vec<ScriptOp>> {
             }
             Some(v)
         }
+        // a sub-trie two page levels down crosses the page-elision threshold (20 leaves) upwards, downwards and
+        // upwards again: pages that were elided get materialised (their WAL diff must carry the reconstructed
+        // nodes) and materialised ones get elided
+        "script-elision-threshold" => Some(vec![Fill(40, 40), FillCluster(19), FillCluster(2), DeleteCluster(4), FillCluster(6), Reopen, FillCluster(1), DeleteCluster(9), FillCluster(12)]),
         _ => None,
     }
 }
@@ -1366,6 +1375,25 @@ impl<'a> Engine<'a> {
                             (k, Some(v))
                         })
                         .collect();
+                    if let Some(fid) = self.session_writes(&[], &ws) {
+                        self.commit_fin(fid, false);
+                    }
+                }
+                ScriptOp::FillCluster(n) => {
+                    let ws: Vec<(Key, Option<Val>)> = (0..n)
+                        .map(|_| {
+                            let mut k = self.rng.bytes32();
+                            k[0] = 0xC3;
+                            k[1] = 0x5A;
+                            (k, Some(gen_value(&mut self.rng, false)))
+                        })
+                        .collect();
+                    if let Some(fid) = self.session_writes(&[], &ws) {
+                        self.commit_fin(fid, false);
+                    }
+                }
+                ScriptOp::DeleteCluster(n) => {
+                    let ws: Vec<(Key, Option<Val>)> = self.committed.keys().filter(|k| k[0] == 0xC3 && k[1] == 0x5A).take(n).map(|k| (*k, None)).collect();
                     if let Some(fid) = self.session_writes(&[], &ws) {
                         self.commit_fin(fid, false);
                     }
